@@ -37,6 +37,14 @@ Theorem C19_work_le_path_weight :
 Proof. exact access_cost. Qed.
 Print Assumptions C19_work_le_path_weight.
 
+(* the weight only grows with the fuel (longer paths are counted), so the weight at any larger
+   fuel is a bound as well: running out of fuel never makes the statement true *)
+Theorem C19_work_le_path_weight_any_fuel :
+  forall (U : link -> option token) (C : ctx) (n m : nat) (ds : desc) (inv : dlg), (n <= m)%nat ->
+    count_verifies (snd (access U C n ds inv)) <= paths_weight U C m inv.
+Proof. exact access_cost_any_fuel. Qed.
+Print Assumptions C19_work_le_path_weight_any_fuel.
+
 (* (b) whenever the path weight is within the quadratic bound, so is the work: sharing
    (a proof reached along several paths) and alternatives are the only source of a blow-up *)
 Theorem C19_quadratic_if_weight :
@@ -102,6 +110,12 @@ Theorem C19_chains_linear :
     verifications_at n (chain root_ok d) = N.of_nat d + 1.
 Proof. exact chain_cost. Qed.
 Print Assumptions C19_chains_linear.
+
+(* with the fuel run_world uses (the correspondence runs): all depths it can handle *)
+Theorem C19_chains_linear_run_world :
+  forall (root_ok : bool) (d : nat), (d <= 38)%nat -> verifications (chain root_ok d) = N.of_nat d + 1.
+Proof. exact chain_cost_run_world. Qed.
+Print Assumptions C19_chains_linear_run_world.
 
 (* ------------------------------------------------------------------ *)
 (* layered DAGs, every width and depth (the negative half)              *)
